@@ -1,7 +1,257 @@
 import FormulaeModel.Driver.Base
-namespace FormulaeModel.Driver.C12
-open Lean FormulaeModel FormulaeModel.Driver
+import FormulaeModel.Model.Scanner
+import FormulaeModel.Model.Parser
+import FormulaeModel.Model.Lazy
+import FormulaeModel.Generated.Tables
+import FormulaeModel.Spec.C01
+import FormulaeModel.Spec.C12
+/-
+Driver operations of C12.
 
-def handle (_op : String) (_j : Json) : Option Json := none
+  {"op":"c12", "s": "<text of one call term>", "n": <rows>, "vars": {name: value, …},
+   "impl_name": <name the implementation gave, optional>}
+      -> tokens, tree, lazy tree (name, fully parenthesised Python text), model value, Python
+         value of the tree (`pyEval`), guard predicates, the normalised token text, and the name
+         part of the specification evaluated on the implementation's name
+  {"op":"c12_pair", "a": <text>, "b": <text>}
+      -> whether the two calls collide (different lazy trees, same name), guards
+
+Values cross the protocol as {"n":[num,den]} | {"b":bool} | {"s":str} | {"none":true} |
+{"v":[[num,den],…]} | {"bv":[bool,…]}.
+
+The environment has the recording callees of harness/c12.py:
+  f(*args, **kwargs) = Σ (i+1)·num(args[i]) + Σ w(k)·num(kwargs[k])   as a column of n rows
+  g(v, k=1)          = v * 2 + k          (Python operators, scalars stay scalars)
+  I(x)               = x
+-/
+namespace FormulaeModel.Driver.C12
+open Lean FormulaeModel FormulaeModel.Driver FormulaeModel.Lazy FormulaeModel.Spec.C12
+
+def ops : OpTable := ⟨Generated.callBinaryOps, Generated.callUnaryOps, Generated.callSymbols⟩
+
+/-! values ⇄ JSON -/
+
+def ratJ (q : Rat) : Json := Json.arr #[Json.num (JsonNumber.fromInt q.num), Json.num (JsonNumber.fromNat q.den)]
+
+def valJ : Val → Json
+  | .num q => Json.mkObj [("n", ratJ q)]
+  | .bool b => Json.mkObj [("b", Json.bool b)]
+  | .str s => Json.mkObj [("s", Json.str s)]
+  | .none => Json.mkObj [("none", Json.bool true)]
+  | .vec xs => Json.mkObj [("v", Json.arr (xs.map ratJ).toArray)]
+  | .bvec bs => Json.mkObj [("bv", Json.arr (bs.map Json.bool).toArray)]
+
+def ratOfJ? (j : Json) : Option Rat :=
+  match j with
+  | .arr #[a, b] =>
+    match a.getInt?, b.getInt? with
+    | .ok n, .ok d => if d = 0 then none else some ((n : Rat) / (d : Rat))
+    | _, _ => none
+  | _ => none
+
+def valOfJ? (j : Json) : Option Val :=
+  match j.getObjVal? "n" with
+  | .ok q => (ratOfJ? q).map Val.num
+  | .error _ =>
+  match j.getObjVal? "b" with
+  | .ok (.bool b) => some (.bool b)
+  | _ =>
+  match j.getObjVal? "s" with
+  | .ok (.str s) => some (.str s)
+  | _ =>
+  match j.getObjVal? "none" with
+  | .ok _ => some .none
+  | .error _ =>
+  match j.getObjVal? "v" with
+  | .ok (.arr xs) => (xs.toList.mapM ratOfJ?).map Val.vec
+  | _ =>
+  match j.getObjVal? "bv" with
+  | .ok (.arr xs) =>
+    (xs.toList.mapM (fun (x : Json) => match x with | Json.bool b => some b | _ => none)).map Val.bvec
+  | _ => none
+
+def evalErrTag : EvalErr → String
+  | .name n => "name:" ++ n
+  | .zeroDiv => "zero_div"
+  | .shape => "shape"
+  | .ambiguous => "ambiguous"
+  | .unsupported => "unsupported"
+  | .unknownOp fn => "unknown_op:" ++ fn
+  | .callee => "callee"
+  | .notPython => "not_python"
+
+def resErrTag : ResErr → String
+  | .binaryKind k => "binary_kind:" ++ k.name
+  | .unaryKind k => "unary_kind:" ++ k.name
+  | .symbol fn => "symbol:" ++ fn
+  | .calleeNotVariable => "callee_not_variable"
+  | .assignVisited => "assign_visited"
+  | .unmodelledLiteral => "unmodelled_literal"
+
+def evalJ : Except EvalErr Val → Json
+  | .ok v => Json.mkObj [("ok", valJ v)]
+  | .error e => Json.mkObj [("err", evalErrTag e)]
+
+/-! the recording callees -/
+
+def strCode (s : String) : Rat := (((s.toList.map Char.toNat).sum % 7 + 1 : Nat) : Rat)
+def kwWeight (k : String) : Rat := ((10 + (k.toList.map Char.toNat).sum % 10 : Nat) : Rat)
+
+/-- `num(v)` as a column of `n` rows -/
+def numOf (n : Nat) : Val → Except EvalErr (List Rat)
+  | .vec xs => if xs.length = n then .ok xs else .error .shape
+  | .bvec bs => if bs.length = n then .ok (bs.map b2q) else .error .shape
+  | .num q => .ok (List.replicate n q)
+  | .bool b => .ok (List.replicate n (b2q b))
+  | .str s => .ok (List.replicate n (strCode s))
+  | .none => .ok (List.replicate n (-3))
+
+def addScaled (w : Rat) (acc xs : List Rat) : List Rat := List.zipWith (fun a x => a + w * x) acc xs
+
+def fPos (n : Nat) : Nat → List Rat → List Val → Except EvalErr (List Rat)
+  | _, acc, [] => .ok acc
+  | i, acc, v :: vs => do
+    let xs ← numOf n v
+    fPos n (i + 1) (addScaled ((i + 1 : Nat) : Rat) acc xs) vs
+
+def fKw (n : Nat) : List Rat → List (String × Val) → Except EvalErr (List Rat)
+  | acc, [] => .ok acc
+  | acc, (k, v) :: ks => do
+    let xs ← numOf n v
+    fKw n (addScaled (kwWeight k) acc xs) ks
+
+def fnF (n : Nat) (xs : List Val) (ks : List (String × Val)) : Except EvalErr Val := do
+  let a ← fPos n 0 (List.replicate n 0) xs
+  let b ← fKw n a ks
+  if b.all inRange then pure (.vec b) else .error .unsupported
+
+def fnG (xs : List Val) (ks : List (String × Val)) : Except EvalErr Val :=
+  match xs, ks with
+  | [v], [] => do BinOp.add.apply (← BinOp.mul.apply v (.num 2)) (.num 1)
+  | [v], [("k", k)] => do BinOp.add.apply (← BinOp.mul.apply v (.num 2)) k
+  | _, _ => .error .callee
+
+def fnI (xs : List Val) (ks : List (String × Val)) : Except EvalErr Val :=
+  match xs, ks with
+  | [v], [] => .ok v
+  | _, _ => .error .callee
+
+def mkEnv (n : Nat) (vars : List (String × Val)) : Env where
+  var := fun name => (vars.find? (fun p => p.1 == name)).map (·.2)
+  fn := fun name =>
+    if name == "f" then some (fnF n)
+    else if name == "g" then some fnG
+    else if name == "I" then some fnI
+    else none
+
+def varsOfJ (j : Json) : List (String × Val) :=
+  match j.getObjVal? "vars" with
+  | .ok (.obj kvs) => kvs.toList.filterMap (fun (k, v) => (valOfJ? v).map (fun x => (k, x)))
+  | _ => []
+
+/-! the operations -/
+
+def scanErrTag : Scanner.ScanErr → String
+  | .empty => "empty" | .unexpected _ => "unexpected" | .unterminatedString => "unterminated_string"
+  | .unterminatedBackquote => "unterminated_backquote" | .tildes => "tildes"
+  | .nonAscii => "non_ascii" | .fuel => "fuel"
+
+def parseErrTag : Parser.ParseErr → String
+  | .fuel => "fuel" | .unexpected => "unexpected" | .expected k => "expected_" ++ k.name
+  | .invalidTarget => "invalid_target" | .badSubset => "bad_subset" | .leftover => "leftover"
+
+def isCallTerm : Expr → Bool
+  | .call .. => true
+  | .brace .. => true
+  | _ => false
+
+/-- text of one call term -> tree (formula grammar, regenerated table) -/
+def treeOfText (s : String) : Except String (List Token × Expr) :=
+  match Scanner.scan s.toList false with
+  | .error e => .error ("scan:" ++ scanErrTag e)
+  | .ok ts =>
+    match Parser.parse Generated.parserTable ts with
+    | .error e => .error ("parse:" ++ parseErrTag e)
+    | .ok e => if isCallTerm e then .ok (ts, e) else .error "not_a_call"
+
+/-- `{e}` is `I(e)` (C12_brace): the guards of a brace term are those of the call it stands for -/
+def desugar : Expr → Expr
+  | .brace _ e _ => .call (.variable ⟨.IDENTIFIER, "I"⟩) ⟨.LEFT_PAREN, "("⟩ (.last e) ⟨.RIGHT_PAREN, ")"⟩
+  | e => e
+
+def guardsJ (e0 : Expr) : Json :=
+  let e := desugar e0
+  Json.mkObj [
+    ("stratified", Spec.C01.Stratified Spec.C01.documentedTable e),
+    ("py_alphabet", PyAlphabet e),
+    ("pow_ok", PowCompatible e),
+    ("chainless", Chainless e),
+    ("py_compatible", PyCompatible e),
+    ("py_stratified", PyStratified e),
+    ("grouping_inert", GroupingInert Generated.parserTable e),
+    ("ungrouped_py_compatible", PyCompatible (Spec.C01.ungroup e))]
+
+def c12Run (j : Json) : Json :=
+  let s := getStr j "s"
+  match treeOfText s with
+  | .error e => Json.mkObj [("err", e)]
+  | .ok (ts, e) =>
+    let env := mkEnv (getNat j "n" 0) (varsOfJ j)
+    let canon := canonText (Spec.C01.ungroup (desugar e)).flat
+    let base : List (String × Json) :=
+      [("toks", Json.arr (ts.map tokJson).toArray), ("ast", Json.str e.sexp),
+       ("guards", guardsJ e), ("canon", Json.str canon),
+       ("py_value", evalJ (pyEval env (desugar e)))]
+    match resolveCall ops e with
+    | .error r => Json.mkObj (base ++ [("res_err", Json.str (resErrTag r))])
+    | .ok t =>
+      let name := t.str
+      -- name part of the specification, evaluated on the implementation's name: inside the
+      -- Python alphabet with inert grouping the name must be the normalised token text
+      let implName := j.getObjValAs? String "impl_name"
+      let specName : Json :=
+        match implName with
+        | .ok n =>
+          if PyAlphabet (desugar e) && GroupingInert Generated.parserTable (desugar e) then
+            Json.bool (n == canon)
+          else Json.null
+        | .error _ => Json.null
+      Json.mkObj (base ++ ([("name", Json.str name), ("paren", Json.str t.parenStr),
+        ("value", evalJ (t.eval env)), ("spec_name_ok", specName),
+        ("name_is_canon", Json.bool (name == canon))] : List (String × Json)))
+
+def pairRun (j : Json) : Json :=
+  match treeOfText (getStr j "a"), treeOfText (getStr j "b") with
+  | .ok (_, a), .ok (_, b) =>
+    let ra := resolveCall ops a
+    let rb := resolveCall ops b
+    let sameLazy := match ra, rb with
+      | .ok x, .ok y => decide (x = y)
+      | _, _ => false
+    let pyEq := match ra, rb with
+      | .ok x, .ok y => x.pyEq y
+      | _, _ => false
+    Json.mkObj [
+      ("collision", nameCollision ops a b),
+      ("py_eq", pyEq),
+      ("literal_merge", literalMerge ops a b),
+      ("same_lazy", sameLazy),
+      ("name_a", match ra with | .ok x => Json.str x.str | .error _ => Json.null),
+      ("name_b", match rb with | .ok x => Json.str x.str | .error _ => Json.null),
+      ("same_tokens_ungrouped",
+        decide ((Spec.C01.ungroup a).flat = (Spec.C01.ungroup b).flat)),
+      ("inert_a", GroupingInert Generated.parserTable a),
+      ("inert_b", GroupingInert Generated.parserTable b),
+      ("alphabet", PyAlphabet (desugar a) && PyAlphabet (desugar b)),
+      ("ungrouped_compatible", PyCompatible (Spec.C01.ungroup (desugar a))
+        && PyCompatible (Spec.C01.ungroup (desugar b)))]
+  | .error e, _ => Json.mkObj [("err", e)]
+  | _, .error e => Json.mkObj [("err", e)]
+
+def handle (op : String) (j : Json) : Option Json :=
+  match op with
+  | "c12" => some (c12Run j)
+  | "c12_pair" => some (pairRun j)
+  | _ => none
 
 end FormulaeModel.Driver.C12
